@@ -438,6 +438,24 @@ class Runner:
     def apply(self, op):
         """perform op; return the observation"""
         k = op["op"]
+        if k == "load" and op.get("extra") == "constants":
+            # a script that was edited by hand: module-level names that are no predicate definitions, in the
+            # middle and at the end.  Whether such a script loads is open; a load that raises must leave the
+            # engine unchanged
+            code = self.script_code(op["script"])
+            parts = code.split("\ndef ")
+            if len(parts) > 2:
+                parts[1] = parts[1] + "\nMID_CONSTANT = 7\n"
+            code = "\ndef ".join(parts) + "\nSCRIPT_VERSION = (1, 2)\nscript_authors = ['a', 'b']\n"
+            yp = self.yps[op["e"] - 1]
+            before = dict(yp.eval_context)
+            try:
+                yp.load_script_from_string(code, overwrite=op["ow"])
+            except Exception as e:
+                after = dict(yp.eval_context)
+                changed = sorted(k2 for k2 in set(before) | set(after) if before.get(k2, self) is not after.get(k2, self))
+                return {"k": "load-raised", "changed": changed, "exc": type(e).__name__}
+            return {"k": "ok"}
         if k == "load":
             code = self.script_code(op["script"])
             if self.opts.get("via_file"):
